@@ -34,6 +34,23 @@ fn main() {
             "content" => content::run(c, &tmp),
             "dir" => dir::run(c, &tmp),
             "pkgs" => pkgs::run(c, &tmp),
+            "corpus" => {
+                // read a committed reference container with the current reader
+                let dir = std::path::PathBuf::from(c.p("dir"));
+                let main = dir.join(c.p("main"));
+                let idx: Vec<&str> = c.p("indexes").split(',').collect();
+                let mut out = vec![format!("{} @model main {}", c.id, main.display())];
+                for e in std::fs::read_dir(&dir).unwrap() {
+                    let e = e.unwrap();
+                    if e.path().is_file() && e.path() != main {
+                        out.push(format!("{} @model sibling {} {}", c.id, e.file_name().to_str().unwrap(), e.path().display()));
+                    }
+                }
+                for l in dump::dump_container(&main, &idx, true) {
+                    out.push(format!("{} {}", c.id, l));
+                }
+                out
+            }
             f => panic!("unknown family {f}"),
         }));
         match r {
